@@ -17,7 +17,7 @@ CLAIMS = {
  "C02": ("write-back dataflow, dominance and path tables on MIR",
          "Decides: every cached state variable of the three compress routines is written back before each return and before calls that read it; flush_block is never entered with output pending (result discipline, caller set, zero result means nothing pending); the sticky-Finish / error gate and the pending-output drain of compress_inner; gating of the final block; conservation of pending output bookkeeping (copied + pending = produced); bit-buffer carry between blocks; Done only when finished and drained. NOT decided: decodability of the concatenated output, absence of panics for every schedule."),
  "C04": ("state-machine extraction, guard atoms, finite-domain evaluation of the header predicate on MIR",
-         "Decides: every format violation the decoder recognises (reserved block type, stored length check, table sizes 286/30, repeat without previous, code-size sum, over-subscribed / incomplete code sets, undefined length/distance symbols, distance before start) is guarded by the RFC 1951 constant, identically on the fast and slow paths; failure states are absorbing and equal is_failure(); Done has a single origin; NeedsMoreInput / FailedCannotMakeProgress originate only in end_of_input, reached only with the input exhausted; validate_zlib_header equals the RFC 1950 predicate on all 2^16 header pairs x buffer modes. NOT decided: correctness of the Kraft-sum arithmetic beyond the recognised guards, that produced bytes equal what the specification defines."),
+         "Decides: every format violation the decoder recognises (reserved block type, stored length check, table sizes 286/30, repeat without previous, code-size sum, over-subscribed / incomplete code sets, undefined length/distance symbols, distance before start) is guarded by the RFC 1951 constant, identically on the fast and slow paths; failure states are absorbing and equal is_failure(); Done has a single origin; NeedsMoreInput / FailedCannotMakeProgress originate only in end_of_input, reached only with the input exhausted; code-length entries are counted exactly (literal +1, repeat code + its whole run, nothing clamped) so every overshoot reaches the code-size-sum test; validate_zlib_header equals the RFC 1950 predicate on all 2^16 header pairs x buffer modes. NOT decided: correctness of the Kraft-sum arithmetic beyond the recognised guards, that produced bytes equal what the specification defines."),
  "C05": ("path tables on the prefix / epilogue of the decoder, state-machine extraction",
          "Decides: BadParam is returned exactly for a non power-of-two ring or out_pos > len, before any access to the decoder state and with counts (0,0); failure states are absorbing; the returned counts are (offered − left − undone, position − out_pos) on every exit. NOT decided here: absence of panics in general (see the panic census once registered), termination, slice-index panics inside transfer."),
  "C06": ("must-pass-through and value-DAG rules on the decoder epilogue",
@@ -31,13 +31,13 @@ CLAIMS = {
  "C18": ("field-effect summaries (may/must-write), liveness over the extracted decoder automaton",
          "Decides: every field the compression data path may write is must-written by CompressorOxide::reset (derived from the fact base, not hand-listed); each InflateState reset policy must-writes every field inflate() may write; after DecompressorOxide::init() no scalar decoder field is read before it is written on any path from State::Start; no mutable statics, hash-randomised containers, clocks, environment or pointer-to-integer casts; mz_deflateReset reaches CompressorOxide::reset. NOT decided: byte-identical output after reset for all histories; prefix-written decoder arrays are outside the scalar liveness. Known finding KF-5 (MinReset leaves the window)."),
  "C03": ("table oracle (RFC 1951 written independently), extracted index expressions, inductive path evaluation on MIR",
-         "Decides (tables / grammar / bit discipline only): decoder base/extra tables, code-length order, table-size bases and widths, repeat-code parameters and fixed-block lengths equal RFC 1951 as the code uses them; the stored-block header is collected through a persisted counter; the slow-path Huffman walk never lets a bit beyond num_bits decide (base case + inductive step). NOT decided: canonical code assignment in init_tree, the tree walk result, apply_match/transfer copy semantics — i.e. conformance over the language of valid streams."),
+         "Decides (tables / grammar / bit discipline only): decoder base/extra tables, code-length order, table-size bases and widths, repeat-code parameters and fixed-block lengths equal RFC 1951 as the code uses them; the stored-block header is collected through a persisted counter; repeat codes fill exactly [counter, counter+run) with the previous length (16) or zero (17/18) and advance the counter by the run; the slow-path Huffman walk never lets a bit beyond num_bits decide (base case + inductive step). NOT decided: canonical code assignment in init_tree, the tree walk result, apply_match/transfer copy semantics — i.e. conformance over the language of valid streams."),
  "C01": ("table oracle, path tables, finite-domain evaluation of configuration code on MIR",
          "Decides structural clauses only: the encoder's symbol/extra-bit computation (index expressions extracted from compress_lz_codes) agrees with RFC 1951 and with the decoder's tables for all 256 lengths and 32768 distances, and record_match counts the symbols that are emitted; fixed-block lengths agree; every dictionary writer mirrors positions < 257 past the window end; the grow-and-retry loops account exactly and panic only on an impossible status; levels above 10 behave as 10 with no out-of-range probe index; every flush_block result is checked; the stored-block source position advances by exactly the bytes a block encoded. NOT decided: that LZ parsing, Huffman construction and bit packing reproduce the input for all data; absence of panics on the compression path."),
  "C08": ("per-path write budget against established space facts, who-may-write, path tables on MIR",
          "Decides: the granted window is min(out_pos + out_max, len) and bytes_left is relative to it; the output slice is written only through write_byte / write_slice / apply_match / transfer; on every path of every state-machine arm and of the fast loop the bytes that may be written (maximum match length taken from the tables) do not exceed the space the path has verified; HasMoreOutput only with a full window; transfer()'s word loops are bounded by match_len rounded down to 4 and the tail is copied on every return; the vector helpers cap allocation/growth by the limit. NOT decided: that the copy loops of transfer stay below max for every (length, position) beyond those bounds; byte-exact preservation outside the window."),
  "C10": ("table oracle, finite-domain routing table, call-graph reachability, dominance on MIR",
-         "Decides: encoder tables and fixed lengths equal RFC 1951; for all 3x11x5x16 configurations exactly one compress routine is reachable, level 0 / raw only reaches compress_stored (which reaches no match or literal recording), RLE and Filtered never reach compress_fast, the fixed strategy forces static blocks at every compress_block call, Huffman-only has a probe budget that makes find_match return at once, the run-length branch uses distance 1 without hash search, filtered mode never records a fresh match <= 5; code-length limits 15/15/7, dynamic header field widths, stored LEN/NLEN, BFINAL from flush == Finish; exactly one final block. NOT decided: completeness/optimality of generated codes, match validity, compression ratio."),
+         "Decides: encoder tables and fixed lengths equal RFC 1951; for all 3x11x5x16 configurations exactly one compress routine is reachable, level 0 / raw only reaches compress_stored (which reaches no match or literal recording), RLE and Filtered never reach compress_fast, the fixed strategy forces static blocks at every compress_block call, Huffman-only has a probe budget that makes find_match return at once, the run-length branch uses distance 1 without hash search, filtered mode never records a fresh match <= 5; code-length limits 15/15/7, dynamic header field widths, stored LEN/NLEN, BFINAL from flush == Finish; exactly one final block; length limiting (every exit of enforce_max_code_size with more than one symbol has merged all over-long codes into the limit bucket, the rebalancing step is symbol-count neutral and lowers the Kraft sum by one unit, optimize_table applies it with its own limit before any code size is assigned). NOT decided: completeness/optimality of generated codes beyond those structural conditions, match validity, compression ratio."),
  "C11": ("finite-domain evaluation of configuration code + value-bound of the distance admission terms on MIR",
          "Decides (substantial): for every zlib configuration of with_params (and for every flags class x window_bits_max that later level/format changes can install) the upper bound of the admitted match distance — the term the distance is compared against in compress_fast, the max_dist argument of find_match, 1 in the run-length branch, evaluated with the invariant dict.size <= 32768 derived from all its writers — does not exceed the window the header declares. Two genuine defects found by this check were repaired (KF-1, KF-2; see known_findings.json)."),
  "C16": ("call-shape rules, single-writer (field effects) and path tables on MIR, in the scalar and simd configurations",
